@@ -256,6 +256,24 @@ void ModeDecompose(Tape& t, Outcome& o) {
   for (int i = 0; i < k; ++i) {
     vec2 c(7.0 * (i % 3), 7.0 * (i / 3));
     int depth = t.range(0, 2);
+    if (t.chance(110)) {
+      // integer-lattice family: hole / island vertices share their y (and x) with outline vertices that the
+      // outline passes through monotonically - the tie cases of the containment ray cast
+      int ox = 10 * (i % 3), oy = 10 * (i / 3);
+      auto P = [&](int x, int y) { return vec2(ox + x, oy + y); };
+      SimplePolygon outer = {P(0, 0), P(6, 0), P(7, 3), P(6, 6), P(0, 6), P(-1, 3)};
+      if (t.flip()) outer = {P(0, 0), P(3, -1), P(6, 0), P(7, 2), P(7, 4), P(6, 6), P(3, 7), P(0, 6), P(-1, 4), P(-1, 2)};
+      ps.push_back(outer);
+      if (depth >= 1) {
+        bool diamond = t.flip();
+        SimplePolygon hole = diamond ? SimplePolygon{P(3, 1), P(1, 3), P(3, 5), P(5, 3)} : SimplePolygon{P(1, 2), P(1, 4), P(3, 5), P(5, 4), P(5, 2), P(3, 1)};  // clockwise
+        ps.push_back(hole);
+        // the island lies strictly inside its hole
+        if (depth >= 2) ps.push_back(diamond ? SimplePolygon{P(3, 2), P(4, 3), P(3, 4), P(2, 3)} : SimplePolygon{P(2, 2), P(4, 2), P(4, 4), P(2, 4)});
+      }
+      o.cls("decompose-lattice-ties");
+      continue;
+    }
     double R = 3.0;
     for (int lvl = 0; lvl <= depth; ++lvl) {
       std::ostringstream sink;
